@@ -126,7 +126,7 @@ class C16(Prop):
             elif k == 'move_state':
                 op = [k, pick(), pick()]
             elif k == 'add_transition':
-                op = [k, {'id': 0, 'source': pick(), 'target': rnd.choice([None, pick(), pick()]),
+                op = [k, {'id': 0, 'source': pick(), 'target': rnd.choice([None, pick(), pick()] + ([''] if rnd.random() < 0.25 else [])),
                           'event': rnd.choice([None, 'e', 'f']), 'guard': None, 'action': None,
                           'priority': rnd.choice([0, 0, 1, -1, 5])}]
                 if sc2.transitions and rnd.random() < 0.3:
